@@ -56,17 +56,17 @@ def describe_syn(o, v):
     return "first difference at %d: expected %s observed %s | text: %r" % (at, e[at - 1:at], b[at - 1:at], o["text"][:300])
 
 
-def c15(ctx):
+def c15(ctx, cfg="FrontTrace_C15.cfg", prop="C15"):
     ctx.build()
     nt, no = (250, 8) if ctx.tier == "quick" else (1500, 40)
     gp, n1 = syntax_gen(ctx, ctx.seed, nt, 3, "Syntax_seeded.cfg", "seeded")
     op = os.path.join(ctx.work, "obs_seeded.ndjson")
     s1 = ctx.vh_json(["syn-check", gp, op])
-    judge_front(ctx, op, "FrontTrace_C15.cfg", "C15", describe_syn)
+    judge_front(ctx, op, cfg, prop, describe_syn)
     gp2, n2 = syntax_gen(ctx, ctx.seed + 7, no, 2, "Syntax_onegap.cfg", "onegap")
     op2 = os.path.join(ctx.work, "obs_onegap.ndjson")
     s2 = ctx.vh_json(["syn-check", gp2, op2])
-    judge_front(ctx, op2, "FrontTrace_C15.cfg", "C15", describe_syn)
+    judge_front(ctx, op2, cfg, prop, describe_syn)
     ctx.cov["evaluations"] += s1["cases"] + s2["cases"]
     ctx.cov["distinct_nontrivial"] += s1["nontrivial"] + s2["nontrivial"]
     ctx.cov["traces_validated_against_impl"] += s1["cases"] + s2["cases"]
@@ -152,3 +152,72 @@ def c17(ctx):
     ctx.cov["traces_validated_against_impl"] += s1["cases"]
     ctx.cov["clean_but_failing_at_run_time"] = s1["clean_but_failing_at_run_time"]
     ctx.cov["samples"] += (s1["samples"] or [])[:2]
+
+
+def known_panic(prop, panic_msg):
+    from .core import load_known
+    for k in load_known():
+        if k.get("status") == "known" and (k.get("property") == prop or prop in k.get("also", [])):
+            pc = k.get("match", {}).get("panic_contains")
+            if pc and pc in (panic_msg or ""):
+                return k
+    return None
+
+
+def edit_check(ctx, prop, which):
+    """Edit.tla documents through the real parser (C14) or the editor analyses (C18)"""
+    ctx.build()
+    nt = 8 if ctx.tier == "quick" else 40
+    cfgs = [("Edit_quick.cfg", nt, 2)] if ctx.tier == "quick" else [("Edit_thorough.cfg", nt, 2), ("Edit_double.cfg", 6, 1)]
+    witness = None
+    for cfg, ntrees, ms in cfgs:
+        gp, cnt = syntax_gen(ctx, ctx.seed, ntrees, ms, cfg, "edit_" + cfg.split(".")[0], module="Edit", workers=8)
+        if witness is None:
+            # dedicated witnesses of the known findings are appended to the first batch
+            from .core import load_known
+            lines = []
+            for k in load_known():
+                if k.get("status") == "known" and (k.get("property") == prop or prop in k.get("also", [])) and k.get("witness"):
+                    t = k["witness"]
+                    lines.append(json.dumps(dict(id=-1, text=t, lines=[len(x) for x in t.split("\n")], lexok=False, accepts=False, ntoks=0)))
+            if lines:
+                open(gp, "a").write("\n".join(lines) + "\n")
+            witness = True
+        op = os.path.join(ctx.work, "obs_%s.ndjson" % cfg)
+        s1 = ctx.vh_json(["edit-check", gp, op, which], timeout=3600)
+        r = ctx.tlc_trace("EditTrace", "EditTrace_%s.cfg" % prop, op, label="EditTrace judges the real %s on Edit.tla documents" % which)
+        ctx.cov["evaluations"] += s1["cases"]
+        ctx.cov["distinct_nontrivial"] += s1["nontrivial"]
+        ctx.cov["traces_validated_against_impl"] += s1["cases"]
+        ctx.cov["cursor_positions"] = ctx.cov.get("cursor_positions", 0) + s1.get("positions", 0)
+        ctx.cov["samples"] += (s1["samples"] or [])[:2]
+        viols = [v for v in r["viols"] if v["prop"] == prop]
+        if not viols:
+            continue
+        obs = read_ndjson(op)
+        seen = set()
+        for v in viols:
+            o = obs[v["id"]]
+            kn = known_panic(prop, o["obs"].get("panic", "")) if "panic" in v["what"] else None
+            if kn:
+                tag = "%s %s" % (kn["id"], kn["what"][:160])
+                if tag not in ctx.known_hits:
+                    ctx.known_hits.append(tag)
+                continue
+            if v["what"] in seen or len(ctx.violations) >= 4:
+                continue
+            rp = dict(kind="edit", property=prop, which=which, case=dict(id=o["id"], text=o["text"], lines=o["lines"], lexok=o["lexok"], accepts=o["accepts"], ntoks=0))
+            if confirm_edit(ctx, rp):
+                seen.add(v["what"])
+                ctx.add_violation("%s: %s | observed: %s | text: %r" % (prop, v["what"], json.dumps(o["obs"])[:300], o["text"][:300]), rp)
+            else:
+                raise Infra("candidate did not reproduce: %s" % v)
+
+
+def confirm_edit(ctx, rp):
+    p = os.path.join(ctx.work, "cand%d" % len(os.listdir(ctx.work)))
+    open(p + ".in", "w").write(json.dumps(rp["case"]) + "\n")
+    ctx.vh_json(["edit-check", p + ".in", p + ".out", rp["which"]])
+    r = ctx.tlc_trace("EditTrace", "EditTrace_%s.cfg" % rp["property"], p + ".out", label="confirmation")
+    rp["observed_again"] = read_ndjson(p + ".out")
+    return [v for v in r["viols"] if v["prop"] == rp["property"]]
